@@ -228,5 +228,31 @@ main (int argc, char **argv)
           printf ("%d", blk2[i]);
         printf ("\n");
       }
+  /* an object moved between setkey_r and encrypt_r (struct assignment into a record, realloc of an array of objects): with the
+     released library the keyed object is a plain value as long as both places are 4-byte aligned */
+  if (skr && enr)
+    {
+      static unsigned char arena2[2][64 + sizeof (struct crypt_data)] __attribute__ ((aligned (16)));
+      static const int offs[][2] = { {0, 4}, {0, 8}, {0, 12}, {4, 8}, {8, 0}, {12, 16}, {4, 20}, {0, 16} };
+      for (unsigned t = 0; t < sizeof offs / sizeof *offs; t++)
+        {
+          char key[64], blk[64];
+          for (int i = 0; i < 64; i++)
+            {
+              key[i] = (char) ((i * 5 + (int) t) % 3 == 0);
+              blk[i] = (char) ((i * 3 + (int) t) % 4 == 1);
+            }
+          struct crypt_data *a = (struct crypt_data *) (arena2[0] + offs[t][0]), *b = (struct crypt_data *) (arena2[1] + offs[t][1]);
+          memset (a, 0, sizeof *a);
+          skr (key, a);
+          memcpy (b, a, sizeof *b);
+          memset (a, 0x5a, sizeof *a);
+          enr (blk, 0, b);
+          printf ("setkey_r/move(%d->%d)/encrypt_r => ", offs[t][0], offs[t][1]);
+          for (int i = 0; i < 64; i++)
+            printf ("%d", blk[i]);
+          printf ("\n");
+        }
+    }
   return 0;
 }
